@@ -121,7 +121,9 @@ func (c *mapCodec) createInjector(dest interface{}, wasNull bool) (injectorFacto
 		case reflect.Interface:
 			if !wasNull {
 				var targetType reflect.Type
-				if targetType, err = PreferredGoType(c.DataType()); err == nil {
+				if targetType, err = PreferredGoType(c.DataType()); err == nil && !targetType.AssignableTo(destValue.Type()) {
+					err = ErrDestinationTypeNotSupported
+				} else if err == nil {
 					injectorFactory = func(size int) (keyValueInjector, error) {
 						destValue.Set(reflect.MakeMapWithSize(targetType, size))
 						return newMapInjector(destValue.Elem())
